@@ -3,6 +3,7 @@ package main
 import (
 	"encoding/json"
 	"fmt"
+	"math/big"
 	"sort"
 	"strings"
 
@@ -68,6 +69,13 @@ func (i c08Ins) build(ipw int) parser.Instruction {
 		effs = []expr.Effect{expr.NewRegStore(expr.NewLess(r1, r2, c8(i.T1), c8(i.T2), W), expr.IPKey, W)}
 	case "two":
 		effs = []expr.Effect{expr.NewRegStore(r1, "x1", W), expr.NewRegStore(expr.NewBinary(expr.Add, c8(i.T1-1), expr.One, W), expr.IPKey, W)}
+	case "nestwide":
+		// a conditional whose branch is a WIDER conditional: its constants carry a byte above the
+		// instruction-pointer width, which the outer conditional cuts off
+		hi := new(big.Int).Lsh(big.NewInt(0x5a), uint(ipw)*8)
+		wide := func(a uint64) expr.Expr { return ir.Const(new(big.Int).Or(new(big.Int).SetUint64(a), hi), W+1) }
+		rw1, rw2 := expr.NewRegLoad("r3", W+1), expr.NewRegLoad("r4", W+1)
+		effs = []expr.Effect{expr.NewRegStore(expr.NewLess(r1, r2, expr.NewLess(rw1, rw2, wide(i.T1), wide(i.T2), W+1), c8(next), W), expr.IPKey, W)}
 	case "symfirst": // one instruction with a symbolic AND a constant target, the symbolic one first
 		effs = []expr.Effect{expr.NewRegStore(expr.NewLess(r1, r2, expr.NewBinary(expr.Add, r1, c8(4), W), c8(i.T1), W), expr.IPKey, W)}
 	case "symlast":
@@ -94,7 +102,7 @@ func (i c08Ins) targets() (consts []uint64, real bool) {
 		add(i.T1)
 	case "cond", "condadd":
 		add(i.T1)
-	case "cond2":
+	case "cond2", "nestwide":
 		add(i.T1)
 		add(i.T2)
 	case "ind":
@@ -225,7 +233,7 @@ func c08Run(c c08Case) *eng.Fail {
 
 func init() {
 	checks["C08"] = eng.Check{
-		Rule:        "deps.NewCode on synthetic instruction sequences: <=3 (thorough 4) instructions of length 2 or 4 in 3 length patterns x every gap pattern, each instruction of one of 10 kinds (plain; IP:=Less(r1,r2,register+4,const T) and the mirrored form, i.e. a symbolic and a constant target in one instruction; IP:=addr+Less(r1,r2,T-addr,len) i.e. a conditional below an addition; IP:=const T; IP:=Less(r1,r2,T,next); IP:=next; IP:=register+4; IP:=Less(..,T1,T2); two effects with a foldable target) with T over {every instruction start, a mid-instruction address, a gap/end address, far outside}, entry over the same address alphabet, sorted and reversed input order, with 8-byte and (quick: for <=2 instructions and a third of the longer sequences) 4-byte instruction-pointer values, plus the empty sequence; and on real RISC-V sequences of <=4 words over {addi, beq +8/-4/+4, jal x0 +8/+4/-8, jalr, bne +12} (targets from the reference decoder), lifted by the rv64 and by the rv32 front end. Oracle: failure iff entry or a constant real target is not an instruction start; otherwise blocks = maximal runs between leaders (first, after gap, after an instruction with a real target, each constant target, entry). Non-trivial = code that builds.",
+		Rule:        "deps.NewCode on synthetic instruction sequences: <=3 (thorough 4) instructions of length 2 or 4 in 3 length patterns x every gap pattern, each instruction of one of 11 kinds (plain; a conditional whose branch is a wider conditional with constants reaching above the instruction-pointer width; IP:=Less(r1,r2,register+4,const T) and the mirrored form, i.e. a symbolic and a constant target in one instruction; IP:=addr+Less(r1,r2,T-addr,len) i.e. a conditional below an addition; IP:=const T; IP:=Less(r1,r2,T,next); IP:=next; IP:=register+4; IP:=Less(..,T1,T2); two effects with a foldable target) with T over {every instruction start, a mid-instruction address, a gap/end address, far outside}, entry over the same address alphabet, sorted and reversed input order, with 8-byte and (quick: for <=2 instructions and a third of the longer sequences) 4-byte instruction-pointer values, plus the empty sequence; and on real RISC-V sequences of <=4 words over {addi, beq +8/-4/+4, jal x0 +8/+4/-8, jalr, bne +12} (targets from the reference decoder), lifted by the rv64 and by the rv32 front end. Oracle: failure iff entry or a constant real target is not an instruction start; otherwise blocks = maximal runs between leaders (first, after gap, after an instruction with a real target, each constant target, entry). Non-trivial = code that builds.",
 		Assumptions: []string{"a constant target equal to the instruction's own end is not a jump (as the property's 'real jump target' says)"},
 		Run: func(r *eng.Run) {
 			do := func(c c08Case) {
@@ -304,6 +312,8 @@ func init() {
 							mk("two", t, 0)
 						}
 					}
+					mk("nestwide", ts[0], ts[len(ts)-1])
+					mk("nestwide", base.Addr+uint64(base.Len), addrs[j.n-1])
 					mk("cond2", ts[0], ts[len(ts)-1])
 					mk("cond2", addrs[j.n-1], addrs[0])
 					mk("cond2", base.Addr+uint64(base.Len), addrs[0])
